@@ -97,9 +97,8 @@ theorem isomorphisms_pending {I : Inst} (ok0 : CGOk I.g0) (ok1 : CGOk I.g1) (hd 
 
 /-! ### the drained iterator -/
 
-/-- executable side condition: the `Incoming` lists of a directed graph have no repeated entry (`is_feasible`
-compares their lengths) -/
-def inNodupB (g : CG) : Bool := !g.directed || (List.range g.n).all fun i => decide (g.inNb i).Nodup
+/- `inNodupB` (executable side condition: the `Incoming` lists of a directed graph have no repeated entry),
+`fuelOk` and `iterFuelOk` are defined in `Model/C13Vf2Side.lean` (the driver evaluates them). -/
 
 theorem inNodupB_sound {g : CG} (h : cgOkB g = true) (hb : inNodupB g = true) :
     g.directed = true → ∀ i, (g.inNb i).Nodup := by
@@ -114,17 +113,6 @@ theorem inNodupB_sound {g : CG} (h : cgOkB g = true) (hb : inNodupB g = true) :
   · rw [inNb_nil_of_ge hli (Nat.le_of_not_lt hi)]; exact List.nodup_nil
 
 
-/-- no call of `next()` made by `iterLoop` runs out of fuel (`bigFuel` loop iterations per call) -/
-def fuelOk (I : Inst) : Nat → M → Bool
-  | 0, m => (isomorphisms I true bigFuel m).isSome
-  | k + 1, m =>
-    match isomorphisms I true bigFuel m with
-    | none => false
-    | some (m', some _) => fuelOk I k m'
-    | some (_, none) => true
-
-/-- the fuel side condition of the completeness theorem, for `iterModel` -/
-def iterFuelOk (I : Inst) : Bool := fuelOk I (fallingFact I.g1.n I.g0.n + 2) (M.init I)
 
 theorem iterLoop_complete {I : Inst} (ok0 : CGOk I.g0) (ok1 : CGOk I.g1) (hd : I.g0.directed = I.g1.directed)
     (hin : I.g0.directed = true → ∀ i, (I.g0.inNb i).Nodup) (hn : 0 < I.g0.n)
